@@ -226,6 +226,15 @@ def chunk_sniffing(chk, prog, ev0=None):
         chk.ob("VN", CHUNK_NEW, res["record"] is None, "otherwise a record chunk exactly when bytes 4..6 are \"BZ\", else UnrecognizedChunkFormat" if res["record"] is None else
                "record-chunk sniffing differs: %s" % res["record"], fn.where(), key="chunk-record")
 
+    # Chunk::data hands back the wrapped bytes unchanged: the whole volume file of a start chunk, the whole record otherwise
+    got, fn = eval_or_blind(chk, sym.Evaluator(prog), "R-WIRE", "nexrad_data::aws::realtime::chunk::Chunk::<'_>::data", [P("self")])
+    if got is not None:
+        slf = P("self")
+        rec0 = fld(("vfld", slf, "IntermediateOrEnd", "0"), "0")
+        want = sym.mk_cases(("discr", slf), "isize", ((((0, 0),), fld(("vfld", slf, "Start", "0"), "0")),
+                                                     (((1, 1),), sym.mk_cases(("discr", rec0), "isize", ((((0, 0),), ("vfld", rec0, "Borrowed", "0")), (((1, 1),), ("vfld", rec0, "Owned", "0")))))))
+        expect(chk, "R-WIRE", "nexrad_data::aws::realtime::chunk::Chunk::<'_>::data", got, want, fn.where(), "data() is the wrapped bytes, whole: the volume file of a start chunk, the record otherwise")
+
 
 def tiling(chk, prog):
     """records tile the bytes: decided on the splitting loop's value-numbered summary, as an induction whose step is
